@@ -47,6 +47,15 @@ pub fn scenario(g: &mut Gen) -> Scenario {
         partials.push(("p1.liquid".into(), Ok(vec![text("<dotted-p1>")])));
         avail.push("p1.liquid".into());
     }
+    // a name with a backslash and one with a slash are different names
+    if g.rng.chance(1, 5) {
+        partials.push(("dir\\leaf".into(), Ok(vec![text("<backslash>")])));
+        avail.push("dir\\leaf".into());
+        if g.rng.chance(1, 2) {
+            partials.push(("dir/leaf".into(), Ok(vec![text("<slash>")])));
+            avail.push("dir/leaf".into());
+        }
+    }
     if g.rng.chance(1, 4) {
         partials.push(("solo.liquid".into(), Ok(vec![text("<solo>"), Node::Assign("a".into(), lit_s("solo"), vec![])])));
         avail.push("solo.liquid".into());
@@ -86,7 +95,10 @@ pub fn scenario(g: &mut Gen) -> Scenario {
             let n = if g.rng.chance(1, 8) { "missing".to_string() } else { g.rng.pick(&avail).clone() };
             pnames.push(Value::scalar(n));
         }
-        let call = if g.rng.chance(1, 2) { Node::Include(var("pn"), vec![]) } else { Node::Render(var("pn"), RForm::Plain, vec![]) };
+        // sometimes with an argument keyed like the name variable itself (the name is evaluated in the
+        // caller's scope, the argument only binds inside the partial)
+        let shadow: Vec<(String, Expr)> = if g.rng.chance(1, 3) { vec![("pn".into(), lit_s(&g.rng.pick(&avail).clone()))] } else { vec![] };
+        let call = if g.rng.chance(1, 2) { Node::Include(var("pn"), shadow) } else { Node::Render(var("pn"), RForm::Plain, shadow) };
         main.push(Node::For { x: "pn".into(), rng: RangeE::Arr(var("pnames")), limit: None, offset: None, rev: false, body: vec![text("~"), call, text("^")], els: None });
     }
     main.extend(tail());
